@@ -11,5 +11,6 @@ import VfsModel.Fs
 import VfsModel.Handle
 import VfsModel.Leaf
 import VfsModel.OverlayConc
+import VfsModel.AltrootConc
 import VfsModel.Path
 import VfsModel.PathOps
